@@ -142,6 +142,18 @@ func (ex *Exec) execBlock(fr *Frame, b *ssa.BasicBlock, pc Term, st State) (Stat
 				tup[i] = ex.freshTyped(pc, "next", tt.At(i).Type())
 			}
 			fr.vals[in] = Term{Tuple: tup}
+			// ranging over a map: a produced key is in the map and comes with its value
+			if rg, ok := in.Iter.(*ssa.Range); ok {
+				if mt, isMap := rg.X.Type().Underlying().(*types.Map); isMap && len(tup) == 3 {
+					m := ex.val(fr, rg.X)
+					dom, val, ln := ex.mapArrays(st, rg.X.Type(), m)
+					fact := and(sel(dom, tup[1], SBool), app(SBool, ">=", ln, intLit(1)))
+					if tup[2].Sort == ex.te.sortOf(mt.Elem()) && tup[2].Sort != SUnit {
+						fact = and(fact, eq(tup[2], sel(val, tup[1], tup[2].Sort)))
+					}
+					ex.vc.assume(pc, implies(tup[0], fact), "map iteration yields present keys")
+				}
+			}
 		case *ssa.Select:
 			tt := in.Type().(*types.Tuple)
 			tup := make([]Term, tt.Len())
